@@ -58,9 +58,17 @@ def project(c):
     case = c["case"]
     solo = c.get("solo", {})
     tasks = [dict(done=bool(t.get("done")), results=[digest(x) for x in t.get("results", [])]) for t in c.get("tasks", [])]
+    # ground truth for process data cycles: what the devices of the task's group hold as inputs
+    gi = c.get("group_inputs", [])
+    for spec, t in zip(case.get("tasks", []), tasks):
+        t["expect_inputs"] = gi[spec["group"]] if spec.get("op") == "tx_rx" and spec.get("group", 0) < len(gi) else []
+        t["is_cycle"] = spec.get("op") == "tx_rx"
     solos = [dict(done=bool(t.get("done")), results=[digest(x) for x in t.get("results", [])]) for t in solo.get("tasks", [])]
     if len(solos) != len(tasks):
         solos = tasks
+    for t in solos:
+        t["expect_inputs"] = []
+        t["is_cycle"] = False
     return dict(case=dict(id=case["id"]), result=c.get("result", "none"), detail=str(c.get("panic", ""))[:200],
                 solo_result=solo.get("result", "none"), tasks=tasks, solo=solos, slots=case.get("frames", 0),
                 max_in_flight=c.get("max_in_flight", 0), ntasks_frames=len(tasks), ntasks=len(tasks),
